@@ -26,6 +26,26 @@ def ensure_tuple(value: str | tuple[str, ...]) -> tuple[str, ...]:
     return value
 
 
+def _hash_code(h: Any, code: Any) -> None:
+    """Mix a code object, and the code objects nested in it, into hash ``h``."""
+    h.update(code.co_code)
+
+    # The bytecode refers to attributes, globals and locals by index only:
+    # x.upper() and x.lower() compile to the same co_code. Hash the name tables too.
+    h.update(repr((code.co_names, code.co_varnames)).encode())
+
+    # Serialize co_consts deterministically. Nested code objects (lambdas, inner
+    # functions, comprehensions) have an address-bearing repr: hash their own
+    # content instead, their name alone does not tell two lambdas apart.
+    for const in code.co_consts:
+        if hasattr(const, "co_code"):
+            h.update(b"<code " + const.co_name.encode() + b">")
+            _hash_code(h, const)
+        else:
+            h.update(repr(const).encode())
+        h.update(b",")
+
+
 def _hash_runtime_bindings(h: Any, func: Callable) -> None:
     """Mix what a function object carries beyond its code into hash ``h``."""
     # Include function defaults to distinguish f(x=1) from f(x=2)
@@ -77,16 +97,7 @@ def hash_definition(func: Callable) -> str:
     code = getattr(func, "__code__", None)
     if code is not None:
         h = hashlib.sha256()
-        h.update(code.co_code)
-
-        # The bytecode refers to attributes, globals and locals by index only:
-        # x.upper() and x.lower() compile to the same co_code. Hash the name tables too.
-        h.update(repr((code.co_names, code.co_varnames)).encode())
-
-        # Serialize co_consts deterministically (replace nested code objects with names)
-        consts_serialized = tuple(c if not hasattr(c, "co_name") else c.co_name for c in code.co_consts)
-        h.update(repr(consts_serialized).encode())
-
+        _hash_code(h, code)
         _hash_runtime_bindings(h, func)
 
         return h.hexdigest()
